@@ -233,7 +233,7 @@ pub fn fix_branch(let_name: Option<(String, bool)>, init: String, raw: Vec<RawAc
 
 pub fn sprog() -> impl Strategy<Value = SProg> {
     let branch = (
-        proptest::option::weighted(0.2, (proptest::sample::select(vec!["a", "name", "r0"]), any::<bool>())),
+        proptest::option::weighted(0.2, (proptest::sample::select(vec!["a", "name", "r0", "a", "name", "r#x", "r#kw"]), any::<bool>())),
         expr_operand(),
         proptest::collection::vec(raw_act(), 0..10),
         0u8..3,
@@ -250,7 +250,8 @@ pub fn sprog() -> impl Strategy<Value = SProg> {
             // distinct let names
             for (i, b) in branches.iter_mut().enumerate() {
                 if let Some((nm, _)) = &mut b.let_name {
-                    *nm = format!("{}{}", nm, i);
+                    // (raw identifiers too: `r#x3`, and keywords written raw)
+                    *nm = if nm == "r#kw" { ["r#type", "r#match", "r#fn", "r#loop", "r#mod", "r#move"][i % 6].to_string() } else { format!("{}{}", nm, i) };
                 }
             }
             let handler = h.map(|(k, e, pos, comma)| SHandler { kind: k, expr: e.0, pos: pos.min(n), comma: comma || pos < n });
@@ -270,6 +271,7 @@ fn nontrivial(p: &SProg) -> bool {
 pub fn check_one(p: &SProg) -> Result<(), String> {
     let text = p.render();
     let exp = expected(p);
+    crate::c15::HEARTBEAT.fetch_add(1, std::sync::atomic::Ordering::Relaxed);
     match syn::parse_str::<JoinInputDefault>(&text) {
         Err(e) => Err(format!("rejected: {}", e)),
         Ok(parsed) => {
@@ -528,6 +530,7 @@ pub fn canonical_example(sig: &str) -> &'static str {
 pub fn replay(v: &serde_json::Value) -> i32 {
     let text = v["input"].as_str().unwrap_or("");
     // the saved expectation is textual; re-derive by parsing and comparing the debug view
+    crate::c15::HEARTBEAT.fetch_add(1, std::sync::atomic::Ordering::Relaxed);
     match syn::parse_str::<JoinInputDefault>(text) {
         Err(e) => {
             println!("replay: input rejected: {}", e);
